@@ -16,7 +16,6 @@ spec fn wf(p: Point) -> bool { canon(p.x@) && canon(p.y@) && canon(p.z@) }
 spec fn coords_le_p(p: Point) -> bool { val4(p.x@) < P() && val4(p.y@) <= P() && val4(p.z@) < P() }
 spec fn abs(p: Point) -> Pt { abs_pt(p.x@, p.y@, p.z@) }
 spec fn valid(p: Point) -> bool { wf(p) && on_curve(abs(p)) }
-spec fn d13_case(a: Point, b: Point) -> bool { abs(a) == abs(b) && abs(a) != Pt::Inf && !(a.x@ == b.x@ && a.y@ == b.y@ && a.z@ == b.z@) }
 // SEC1 / GB/T 32918.1 4.2.9 point encodings
 pub open spec fn sec1(q: Pt, compress: bool) -> Seq<u8> {
     match q {
@@ -346,11 +345,7 @@ impl Point {
 
     fn point_add(&self, p: &Point) -> (r: Point)
         requires valid(*self), valid(*p)
-        ensures wf(r),
-            !d13_case(*self, *p) ==> valid(r) && abs(r) == g_add(abs(*self), abs(*p)),
-            // known finding D13: the same point in two different Jacobian representations is not recognised as a doubling;
-            // the generic formulas then return (0, 0, 0), i.e. "infinity", instead of 2P
-            d13_case(*self, *p) ==> val4(r.z@) == 0
+        ensures valid(r), abs(r) == g_add(abs(*self), abs(*p))
     {
         // 0 + p2 = p2
         if self.is_zero() {
@@ -384,6 +379,13 @@ impl Point {
             let s2 = y2_z1.fp_mul(&z1_sqr);
             let h = u2.fp_sub(&u1);
             let r = s2.fp_sub(&s1);
+            proof {
+                ecc_add_same_main(x1@, y1@, z1@, x2@, y2@, z2@, h@, r@, fe(z1_sqr@), fe(z2_sqr@), fe(u1@), fe(u2@), fe(y1_z2@), fe(s1@), fe(y2_z1@), fe(s2@));
+            }
+            // p1 = p2 in another Jacobian representation: the chord formulas would degenerate to (0, 0, 0)
+            if h.is_zero() && r.is_zero() {
+                return self.point_dbl();
+            }
             let hh = h.fp_sqr();
             let hhh = hh.fp_mul(&h);
             let v = u1.fp_mul(&hh);
@@ -409,8 +411,7 @@ impl Point {
 
     // P = [k]G
     fn scalar_mul(&self, scalar: &[u64]) -> (r: Point)
-        requires valid(*self), scalar@.len() == 4,
-            val4(scalar@) < N()   // carve-out for known finding D13 (scalars >= n can hit the equal-point case)
+        requires valid(*self), scalar@.len() == 4
         ensures valid(r), abs(r) == g_smul(val4(scalar@), abs(*self))
     {
         let mut pre_table = vec![];
@@ -424,11 +425,9 @@ impl Point {
         let ghost a = abs(*self);
         proof {
             ecc_smul_one(a);
-            assert(N() > 32) by(compute);
             lemma_smul_add(1, 1, a); lemma_smul_add(2, 2, a); lemma_smul_add(4, 4, a); lemma_smul_add(1, 2, a); lemma_smul_add(3, 3, a);
             lemma_smul_add(1, 6, a); lemma_smul_add(6, 6, a); lemma_smul_add(1, 4, a); lemma_smul_add(5, 5, a); lemma_smul_add(7, 7, a);
             lemma_smul_add(1, 8, a); lemma_smul_add(1, 10, a); lemma_smul_add(1, 12, a); lemma_smul_add(1, 14, a);
-            ecc_no_d13(1, 2, a); ecc_no_d13(1, 6, a); ecc_no_d13(1, 4, a); ecc_no_d13(1, 8, a); ecc_no_d13(1, 10, a); ecc_no_d13(1, 12, a); ecc_no_d13(1, 14, a);
         }
         pre_table[1 - 1] = *self;
         pre_table[2 - 1] = pre_table[1 - 1].point_dbl();
@@ -455,7 +454,7 @@ impl Point {
 
         for i in iti: 0..scalar.len()
             invariant
-                scalar@.len() == 4, val4(scalar@) < N(), valid(*self), a == abs(*self), valid(r), pre_table@.len() == 16,
+                scalar@.len() == 4, valid(*self), a == abs(*self), valid(r), pre_table@.len() == 16,
                 forall|k: int| 0 <= k < 15 ==> valid(#[trigger] pre_table@[k]) && abs(pre_table@[k]) == g_smul(k + 1, a),
                 iti.index@ < 4 ==> abs(r) == g_smul(16 * acc, a) && acc == ecc_hi(scalar@, iti.index@ as int),
                 iti.index@ == 4 ==> abs(r) == g_smul(val4(scalar@), a),
@@ -467,7 +466,7 @@ impl Point {
                     acc == ecc_hi(scalar@, i as int) * ecc_pow16(itj.index@ as int) + ecc_tj(scalar@[3 - i], itj.index@ as int) as int,
                     i == 3 ==> itj.index@ < 16,
                 invariant
-                    scalar@.len() == 4, val4(scalar@) < N(), valid(*self), a == abs(*self), valid(r), pre_table@.len() == 16, 0 <= i < 4,
+                    scalar@.len() == 4, valid(*self), a == abs(*self), valid(r), pre_table@.len() == 16, 0 <= i < 4,
                     ecc_pow16(16) == 0x1_0000_0000_0000_0000int, ecc_tj(scalar@[3 - i], 16) == scalar@[3 - i],
                     ecc_hi(scalar@, i + 1) == 0x1_0000_0000_0000_0000int * ecc_hi(scalar@, i as int) + scalar@[3 - i] as int,
                     forall|k: int| 0 <= k < 15 ==> valid(#[trigger] pre_table@[k]) && abs(pre_table@[k]) == g_smul(k + 1, a),
@@ -494,7 +493,6 @@ impl Point {
                     assert(0 <= acc && 16 * acc + d <= val4(scalar@));
                     lemma_smul_closed(16 * acc, a);
                     if d != 0 {
-                        ecc_no_d13(d, 16 * acc, a);
                         lemma_smul_add(d, 16 * acc, a);
                     }
                 }
@@ -563,7 +561,6 @@ impl Point {
 }
 
     fn g_mul(g: &U256) -> (r: Point)
-    requires val4(g@) < N()   // carve-out for known finding D13
     ensures valid(r), abs(r) == g_smul(val4(g@), G())
     {
     let mut r = Point::zero();
@@ -571,12 +568,12 @@ impl Point {
     proof { ecc_g_on_curve(); }
     for index in ito: 0..g.len()
         invariant
-            num == 8, val4(g@) < N(), valid(r), on_curve(G()),
+            num == 8, valid(r), on_curve(G()),
             abs(r) == g_smul(ecc_lo(g@, 8 * ito.index@), G()),
     { let scalar_word = &g[index];
         for m in itm: 0..num
             invariant
-                num == 8, val4(g@) < N(), valid(r), on_curve(G()), 0 <= index < 4, *scalar_word == g@[index as int],
+                num == 8, valid(r), on_curve(G()), 0 <= index < 4, *scalar_word == g@[index as int],
                 abs(r) == g_smul(ecc_lo(g@, 8 * index + itm.index@), G()),
         {
             let ghost w = *scalar_word;
@@ -597,8 +594,9 @@ impl Point {
                     ax_sm2_table(i, raw_index as int);
                     assert(t >= pow256(i)) by(nonlinear_arith) requires t == raw_index as int * pow256(i), raw_index >= 1, pow256(i) > 0;
                     lemma_smul_closed(t, G());
-                    ecc_no_d13(lo, t, G());
                     lemma_smul_add(lo, t, G());
+                } else {
+                    assert(t == 0) by(nonlinear_arith) requires t == raw_index as int * pow256(i), raw_index == 0;
                 }
             }
             if raw_index != 0 {
@@ -1656,6 +1654,75 @@ pub proof fn ecc_add_aff(X1: int, Y1: int, Z1: int, X2: int, Y2: int, Z2: int, z
         ecc_div3(y3, yr, Z3, w);
         assert((y3 * w * w * w) % P() == yr);
     }
+}
+// u1, u2, s1, s2, h, r as point_add computes them before it tests for "the same point in another representation"
+pub open spec fn ecc_add_rel0(X1: int, Y1: int, Z1: int, X2: int, Y2: int, Z2: int, z1s: int, z2s: int, u1: int, u2: int, y1z2: int, s1: int, y2z1: int, s2: int, h: int, r: int) -> bool {
+    z1s == (Z1 * Z1) % P() && z2s == (Z2 * Z2) % P() && u1 == (X1 * z2s) % P() && u2 == (X2 * z1s) % P()
+    && y1z2 == (Y1 * Z2) % P() && s1 == (y1z2 * z2s) % P() && y2z1 == (Y2 * Z1) % P() && s2 == (y2z1 * z1s) % P()
+    && h == (u2 - u1) % P() && r == (s2 - s1) % P()
+}
+#[verifier::external_body]
+pub proof fn ring_add_r(y1a: int, y2a: int, t: int)
+    ensures ((y2a * t * t * t) - (y1a * t * t * t))
+        == (y2a - y1a) * (t * t * t)
+{ }
+// h == 0 and r == 0 exactly when the two (finite) points are the same affine point (pure integer statement)
+pub proof fn ecc_add_same(X1: int, Y1: int, Z1: int, X2: int, Y2: int, Z2: int, z1s: int, z2s: int, u1: int, u2: int, y1z2: int, s1: int, y2z1: int, s2: int, h: int, r: int)
+    requires 0 <= X1 < P(), 0 <= Y1 < P(), 0 < Z1 < P(), 0 <= X2 < P(), 0 <= Y2 < P(), 0 < Z2 < P(),
+        ecc_add_rel0(X1, Y1, Z1, X2, Y2, Z2, z1s, z2s, u1, u2, y1z2, s1, y2z1, s2, h, r),
+        on_curve(Pt::Aff { x: (X1 * inv_p(Z1) * inv_p(Z1)) % P(), y: (Y1 * inv_p(Z1) * inv_p(Z1) * inv_p(Z1)) % P() }),
+        on_curve(Pt::Aff { x: (X2 * inv_p(Z2) * inv_p(Z2)) % P(), y: (Y2 * inv_p(Z2) * inv_p(Z2) * inv_p(Z2)) % P() }),
+    ensures ({
+        let a = Pt::Aff { x: (X1 * inv_p(Z1) * inv_p(Z1)) % P(), y: (Y1 * inv_p(Z1) * inv_p(Z1) * inv_p(Z1)) % P() };
+        let b = Pt::Aff { x: (X2 * inv_p(Z2) * inv_p(Z2)) % P(), y: (Y2 * inv_p(Z2) * inv_p(Z2) * inv_p(Z2)) % P() };
+        (h == 0 && r == 0) == (a == b) })
+{
+    ecc_pos(); ecc_small(0); ecc_small(1);
+    let zi1 = inv_p(Z1); let x1a = (X1 * zi1 * zi1) % P(); let y1a = (Y1 * zi1 * zi1 * zi1) % P();
+    let zi2 = inv_p(Z2); let x2a = (X2 * zi2 * zi2) % P(); let y2a = (Y2 * zi2 * zi2 * zi2) % P();
+    ecc_aff_nonzero(X1, Y1, Z1); ecc_aff_nonzero(X2, Y2, Z2);
+    ecc_param(X1, Y1, Z1, zi1, x1a, y1a); ecc_param(X2, Y2, Z2, zi2, x2a, y2a);
+    let t = Z1 * Z2;
+    ecc_add_pre(X1, Y1, Z1, X2, Y2, Z2, z1s, z2s, u1, u2, y1z2, s1, y2z1, s2, x1a, y1a, x2a, y2a);
+    let U1 = x1a * t * t; let U2 = x2a * t * t; let S1 = y1a * t * t * t; let S2 = y2a * t * t * t;
+    ecc_cs(h, u2, u1, U2, U1);
+    ecc_cs(r, s2, s1, S2, S1);
+    ecc_range(u2 - u1); ecc_range(s2 - s1); ecc_small(h); ecc_small(r);
+    ecc_range(X1 * zi1 * zi1); ecc_range(X2 * zi2 * zi2); ecc_range(Y1 * zi1 * zi1 * zi1); ecc_range(Y2 * zi2 * zi2 * zi2);
+    ecc_small(x1a); ecc_small(x2a); ecc_small(y1a); ecc_small(y2a);
+    ring_add_h(x1a, x2a, t);
+    ring_add_r(y1a, y2a, t);
+    let dx = x2a - x1a; let dy = y2a - y1a;
+    assert(h == (dx * (t * t)) % P());
+    assert(r == (dy * (t * t * t)) % P());
+    // t, t^2, t^3 are units
+    ecc_small(Z1); ecc_small(Z2);
+    ecc_nz_mul(Z1, Z2); ecc_nz_mul(t, t); ecc_nz_mul(t * t, t);
+    if x1a == x2a {
+        assert(dx * (t * t) == 0) by(nonlinear_arith) requires dx == 0;
+    } else {
+        ecc_diff(x2a, x1a);
+        ecc_nz_mul(dx, t * t);
+    }
+    if y1a == y2a {
+        assert(dy * (t * t * t) == 0) by(nonlinear_arith) requires dy == 0;
+    } else {
+        ecc_diff(y2a, y1a);
+        ecc_nz_mul(dy, t * t * t);
+    }
+}
+// the same on the representation: both is_zero() tests of point_add succeed exactly for equal points
+pub proof fn ecc_add_same_main(x1: Seq<u64>, y1: Seq<u64>, z1: Seq<u64>, x2: Seq<u64>, y2: Seq<u64>, z2: Seq<u64>, h: Seq<u64>, r: Seq<u64>,
+    z1s: int, z2s: int, u1: int, u2: int, y1z2: int, s1: int, y2z1: int, s2: int)
+    requires canon(x1), canon(y1), canon(z1), canon(x2), canon(y2), canon(z2), canon(h), canon(r),
+        val4(z1) != 0, val4(z2) != 0, on_curve(abs_pt(x1, y1, z1)), on_curve(abs_pt(x2, y2, z2)),
+        ecc_add_rel0(fe(x1), fe(y1), fe(z1), fe(x2), fe(y2), fe(z2), z1s, z2s, u1, u2, y1z2, s1, y2z1, s2, fe(h), fe(r))
+    ensures (val4(h) == 0 && val4(r) == 0) == (abs_pt(x1, y1, z1) == abs_pt(x2, y2, z2))
+{
+    ecc_pos(); ecc_small(0);
+    ecc_fe_range(x1); ecc_fe_range(y1); ecc_fe_range(z1); ecc_fe_range(x2); ecc_fe_range(y2); ecc_fe_range(z2);
+    ecc_fe_zero(z1); ecc_fe_zero(z2); ecc_fe_zero(h); ecc_fe_zero(r);
+    ecc_add_same(fe(x1), fe(y1), fe(z1), fe(x2), fe(y2), fe(z2), z1s, z2s, u1, u2, y1z2, s1, y2z1, s2, fe(h), fe(r));
 }
 // the generic branch of point_add against the group law
 pub proof fn ecc_add_main(x1: Seq<u64>, y1: Seq<u64>, z1: Seq<u64>, x2: Seq<u64>, y2: Seq<u64>, z2: Seq<u64>, x3: Seq<u64>, y3: Seq<u64>, z3: Seq<u64>,
